@@ -41,9 +41,9 @@ def child(ctx, hists, name, procs=8):
     return out
 
 
-def cfg(maxlen, guard, emit):
+def cfg(maxlen, guard, emit, sae="TRUE"):
     t = open(os.path.join(tlc.SPEC, "Hooks.cfg.tmpl")).read()
-    return t.replace("@MAXLEN@", str(maxlen)).replace("@GUARD@", guard).replace("@EMIT@", emit)
+    return t.replace("@MAXLEN@", str(maxlen)).replace("@GUARD@", guard).replace("@SAE@", sae).replace("@EMIT@", emit)
 
 
 def run(ctx):
@@ -59,6 +59,10 @@ def run(ctx):
     if rn["ok"]:
         raise MachineryError("negative design model (pinned __exit__) was not refuted: the acceptance relation has no teeth")
     ctx.notes.append("negative design model (unguarded __exit__) refuted by TLC as expected")
+    rn = tlc.run("Hooks", cfg(200, "TRUE", "VIEW View\n", sae="FALSE"), workers=4, timeout=900)
+    if rn["ok"]:
+        raise MachineryError("negative design model (binding remembered at construction, not at entry) was not refuted")
+    ctx.notes.append("negative design model (manager remembers pickle.load when constructed) refuted by TLC as expected")
     # 2. histories
     maxlen = 5 if ctx.quick else 6
     hists = tv.generate(ctx, "Hooks", cfg(maxlen, "TRUE", "INVARIANT Emit\n"), "HIST", workers=16, name=f"gen:Hooks:len{maxlen}")
